@@ -6,8 +6,11 @@ Property theorems only (helper lemmas: `Proofs/Recoco.lean`; model: `Model/Recoc
 and timers have just been started — for **all** program tables `cfg.progs`, task lists, timer configurations, fd-readiness
 scripts, socket scripts, start times and `n`.  Times are in units of 1/8 s.
 
-`cfg.fixSend` / `cfg.fixEmptySub` select the code as it stands (`false`) or the two proposed one-line repairs of D25 / D60; all
-theorems hold for both.
+`cfg.fixSend` / `cfg.fixEmptySub` select the code before (`false`) or after (`true`) the two one-line repairs of D25 / D60/D61
+(both committed upstream); all theorems hold for both.
+
+Priorities and the lottery: `ps` are the start priorities (units of 1/8; 8 = the default 1) and `ds` the sequence of values
+`Scheduler._random()` returns (same unit; 0.0 once exhausted) — both are inputs, every theorem holds for all of them.
 
 Scope: single-threaded scheduler with the inline select hub and the virtual select of the model (`vselect`); the threaded hub,
 real descriptors and `CallBlocking` worker threads are not modelled (C07 covers the thread hand-off). -/
@@ -15,19 +18,19 @@ namespace Pox.C06
 open Pox.Recoco
 
 /-- the scheduler state after `n` loop iterations -/
-def reach (cfg : Cfg) (t0 : Nat) (tasks : List Nat) (timers : List TimerCfg) (ss rs : List (Option Nat)) (n : Nat) : St :=
-  run cfg n (initSt t0 tasks timers ss rs)
+def reach (cfg : Cfg) (t0 : Nat) (tasks : List Nat) (timers : List TimerCfg) (ss rs : List (Option Nat)) (ps ds : List Nat) (n : Nat) : St :=
+  run cfg n (initSt t0 tasks timers ss rs ps ds)
 
-variable (cfg : Cfg) (t0 : Nat) (tasks : List Nat) (timers : List TimerCfg) (ss rs : List (Option Nat)) (n : Nat)
+variable (cfg : Cfg) (t0 : Nat) (tasks : List Nat) (timers : List TimerCfg) (ss rs : List (Option Nat)) (ps ds : List Nat) (n : Nat)
 
 /-- **single_place.**  `places s` is the concatenation running-slot ++ ready deque ++ hub inbox ++ hub table.  No task id
 occurs in it twice (so a task is in at most one of running / ready / hub-waiting, at most once), everything in it is a live
 task, and a live task that is in none of them is *blocked*.  A finished or dead task is in no queue. -/
-theorem single_place (s : St) (hs : s = reach cfg t0 tasks timers ss rs n) :
+theorem single_place (s : St) (hs : s = reach cfg t0 tasks timers ss rs ps ds n) :
     (places s).Nodup ∧ (∀ t ∈ places s, ∃ tk, s.tasks[t]? = some tk ∧ tk.st = .live) ∧
     (∀ (t : Nat) (tk : Task), s.tasks[t]? = some tk → tk.st ≠ .live → t ∉ places s) := by
   subst hs
-  have h : Inv (reach cfg t0 tasks timers ss rs n) := Inv.run cfg n (Inv.init t0 tasks timers ss rs)
+  have h : Inv (reach cfg t0 tasks timers ss rs ps ds n) := Inv.run cfg n (Inv.init t0 tasks timers ss rs ps ds)
   refine ⟨h.nodup, ?_, ?_⟩
   · intro t ht
     have := h.live t ht
@@ -41,15 +44,15 @@ theorem single_place (s : St) (hs : s = reach cfg t0 tasks timers ss rs n) :
 
 /-- **caller_blocked** (the "blocked waiting for a sub-task" place): the caller of a live sub-task is itself live, sits in no
 queue, and has no second live sub-task. -/
-theorem caller_blocked (s : St) (hs : s = reach cfg t0 tasks timers ss rs n) :
+theorem caller_blocked (s : St) (hs : s = reach cfg t0 tasks timers ss rs ps ds n) :
     ∀ (c : Nat) (tk : Task) (k p : Nat), s.tasks[c]? = some tk → tk.kind = .sub k p → tk.st = .live →
       p ∉ places s ∧ (∃ ptk, s.tasks[p]? = some ptk ∧ ptk.st = .live) ∧
       (∀ (c' : Nat) (tk' : Task) (k' : Nat), s.tasks[c']? = some tk' → tk'.kind = .sub k' p → tk'.st = .live → c' = c) := by
   subst hs
-  have h : Inv (reach cfg t0 tasks timers ss rs n) := Inv.run cfg n (Inv.init t0 tasks timers ss rs)
+  have h : Inv (reach cfg t0 tasks timers ss rs ps ds n) := Inv.run cfg n (Inv.init t0 tasks timers ss rs ps ds)
   intro c tk k p htk hkind hl
-  have hk : kdL (reach cfg t0 tasks timers ss rs n).tasks c = some (.sub k p) := by simp [kdL, htk, hkind]
-  have hs : stL (reach cfg t0 tasks timers ss rs n).tasks c = some .live := by simp [stL, htk, hl]
+  have hk : kdL (reach cfg t0 tasks timers ss rs ps ds n).tasks c = some (.sub k p) := by simp [kdL, htk, hkind]
+  have hs : stL (reach cfg t0 tasks timers ss rs ps ds n).tasks c = some .live := by simp [stL, htk, hl]
   obtain ⟨hp1, hp2⟩ := h.parent c k p hk hs
   refine ⟨hp1, ?_, ?_⟩
   · obtain ⟨pk, hpk⟩ := stL_some hp2
@@ -58,22 +61,52 @@ theorem caller_blocked (s : St) (hs : s = reach cfg t0 tasks timers ss rs n) :
     exact h.uniq c' c k' k p (by simp [kdL, htk', hkind']) hk (by simp [stL, htk', hl']) hs
 
 /-- **no_overlap.**  Between two iterations of the run loop nobody is running; a step begins (`cyclePop`) only from that
-state and ends (`cycleExec`) by emptying the slot again: steps never overlap.  (Trivial for a single thread; C07 is about the
-threaded hand-off.) -/
-theorem no_overlap : (reach cfg t0 tasks timers ss rs n).running = none :=
-  (NE.run cfg n (Inv.init t0 tasks timers ss rs) (NE.init t0 tasks timers ss rs)).1
+state and ends (`cycleExec`) by emptying the slot again: steps never overlap.  NOTE: this holds *by construction* of the model
+(`cycleExec` returns with the slot empty on every path; the model is sequential) — it records a modelling decision and is
+evidence only through the differential run.  C07 is about the threaded hand-off. -/
+theorem no_overlap : (reach cfg t0 tasks timers ss rs ps ds n).running = none :=
+  (NE.run cfg n (Inv.init t0 tasks timers ss rs ps ds) (NE.init t0 tasks timers ss rs ps ds)).1
+
+/-- **pop_leaves_queue** (never run while queued).  Whatever the priorities and the random draws, the task the lottery of
+`cycle` picks is taken *out* of the ready deque (it is in no queue while it runs), nothing else leaves the deque and nothing is
+duplicated: the deque after the pop is the old one minus that task. -/
+theorem pop_leaves_queue (s : St) (hs : s = reach cfg t0 tasks timers ss rs ps ds n) (t : Nat) (rest ds' : List Nat)
+    (hpop : lottery s.tasks s.draws s.ready = some (t, rest, ds')) :
+    t ∈ s.ready ∧ t ∉ rest ∧ rest.Nodup ∧ (∀ u, u ∈ rest ↔ (u ∈ s.ready ∧ u ≠ t)) ∧
+    (cyclePop s).running = some t ∧ (cyclePop s).ready = rest := by
+  subst hs
+  have hi : Inv (reach cfg t0 tasks timers ss rs ps ds n) := Inv.run cfg n (Inv.init t0 tasks timers ss rs ps ds)
+  have hrun := no_overlap cfg t0 tasks timers ss rs ps ds n
+  have hperm := lottery_perm _ _ _ hpop
+  have hnd : (reach cfg t0 tasks timers ss rs ps ds n).ready.Nodup := by
+    have := hi.nodup
+    simp only [places] at this
+    exact (List.nodup_append.mp (List.nodup_append.mp this).2.1).1
+  have hnd' : (t :: rest).Nodup := hperm.nodup_iff.mpr hnd
+  have hnt : t ∉ rest := (List.nodup_cons.mp hnd').1
+  refine ⟨hperm.mem_iff.mp List.mem_cons_self, hnt, (List.nodup_cons.mp hnd').2, ?_, ?_, ?_⟩
+  · intro u
+    constructor
+    · intro hu
+      exact ⟨hperm.mem_iff.mp (List.mem_cons_of_mem _ hu), fun e => hnt (e ▸ hu)⟩
+    · rintro ⟨hu, hne⟩
+      rcases List.mem_cons.mp (hperm.mem_iff.mpr hu) with h | h
+      · exact absurd h hne
+      · exact h
+  · simp [cyclePop, hrun, hpop]
+  · simp [cyclePop, hrun, hpop]
 
 /-- **program_order.**  For every task, the indices of its step events in the trace are exactly `0, 1, …, pc-1` in this order
 (each resume of its generator happened once, in order, none skipped); `pc` never exceeds the program length + 1 (the last
 resume is the one that ends the generator) and a task that is still live has a yield left to come back from. -/
-theorem program_order (s : St) (hs : s = reach cfg t0 tasks timers ss rs n) :
+theorem program_order (s : St) (hs : s = reach cfg t0 tasks timers ss rs ps ds n) :
     (∀ (t : Nat) (tk : Task), s.tasks[t]? = some tk → s.trace.filterMap (stepIdx t) = List.range tk.pc) ∧
     (∀ t : Nat, s.tasks[t]? = none → s.trace.filterMap (stepIdx t) = []) ∧
     (∀ (t : Nat) (tk : Task) (prog : List Y), s.tasks[t]? = some tk → progOf cfg tk.kind = some prog →
         tk.pc ≤ prog.length + 1 ∧ (tk.st = .live → tk.pc ≤ prog.length)) := by
   subst hs
-  have hi : Inv (initSt t0 tasks timers ss rs) := Inv.init t0 tasks timers ss rs
-  have h : PO cfg (reach cfg t0 tasks timers ss rs n) := PO.run cfg n hi (PO.init cfg t0 tasks timers ss rs)
+  have hi : Inv (initSt t0 tasks timers ss rs ps ds) := Inv.init t0 tasks timers ss rs ps ds
+  have h : PO cfg (reach cfg t0 tasks timers ss rs ps ds n) := PO.run cfg n hi (PO.init cfg t0 tasks timers ss rs ps ds)
   refine ⟨?_, ?_, ?_⟩
   · intro t tk htk
     have := h.idx t
@@ -86,92 +119,183 @@ theorem program_order (s : St) (hs : s = reach cfg t0 tasks timers ss rs n) :
     exact ⟨this.1, fun hl => this.2 hl (by simp)⟩
 
 /-- each generator resume is delivered exactly once: no step index occurs twice in a task's trace -/
-theorem step_once (t : Nat) : ((reach cfg t0 tasks timers ss rs n).trace.filterMap (stepIdx t)).Nodup := by
-  have h := program_order cfg t0 tasks timers ss rs n _ rfl
-  cases htk : (reach cfg t0 tasks timers ss rs n).tasks[t]? with
+theorem step_once (t : Nat) : ((reach cfg t0 tasks timers ss rs ps ds n).trace.filterMap (stepIdx t)).Nodup := by
+  have h := program_order cfg t0 tasks timers ss rs ps ds n _ rfl
+  cases htk : (reach cfg t0 tasks timers ss rs ps ds n).tasks[t]? with
   | none => rw [h.2.1 t htk]; exact List.nodup_nil
   | some tk => rw [h.1 t tk htk]; exact List.nodup_range
 
-/-- **not_early.**  A step event records, next to the value the generator received, the absolute wake time `w` of the timed
-wait the task was in (`Sleep t`, `yield n>0`, `Select/Recv/Send` with a timeout, `Timer`), and whether the wait also had
-descriptors.  A task that only slept is resumed at `now ≥ w`; a task waiting on descriptors with a timeout is resumed either
-because a descriptor is ready (it then receives non-empty lists) or, with the timeout value `([],[],[])`, at `now ≥ w`.
-("Exactly once" is `step_once`.) -/
+/-- **not_early.**  A step event records, next to what the generator received (`r`) and the raw value the hub handed back
+before any `Recv`/`Send` return function ran (`raw`), the absolute wake time `w` of the timed wait the task was in (`Sleep t`,
+`yield n>0`, `Select/Recv/Send` with a timeout, `Timer`), and whether the wait also had descriptors.  A task that only slept is
+resumed at `now ≥ w`; a task waiting on descriptors with a timeout — including `Recv` and `Send` — is resumed either because a
+descriptor is ready (the hub then hands back non-empty lists) or, with the timeout value `([],[],[])`, at `now ≥ w`.
+`w` is the model's own bookkeeping; that it is the time the preceding yield asked for is `wake_is_requested` + `wake_kept` +
+`delivery` below.  ("Exactly once" is `step_once`.) -/
 theorem not_early :
-    ∀ t i tm r w fds, Ev.step t i tm r (some (w, fds)) ∈ (reach cfg t0 tasks timers ss rs n).trace →
-      (fds = false ∨ r = .val timeoutVal) → w ≤ tm := by
-  have h := NE.run cfg n (Inv.init t0 tasks timers ss rs) (NE.init t0 tasks timers ss rs)
-  intro t i tm r w fds hm
+    ∀ t i tm r raw w fds, Ev.step t i tm r raw (some (w, fds)) ∈ (reach cfg t0 tasks timers ss rs ps ds n).trace →
+      (fds = false ∨ raw = timeoutVal) → w ≤ tm := by
+  have h := NE.run cfg n (Inv.init t0 tasks timers ss rs ps ds) (NE.init t0 tasks timers ss rs ps ds)
+  intro t i tm r raw w fds hm
   exact h.2.2 _ hm
 
 /-- between cycles the wake time noted for a task that waits in the hub is the one the hub will use (`tto`) -/
-theorem wake_is_registered (s : St) (hs : s = reach cfg t0 tasks timers ss rs n) :
+theorem wake_is_registered (s : St) (hs : s = reach cfg t0 tasks timers ss rs ps ds n) :
     ∀ e ∈ s.incoming ++ s.hub, ∀ tk : Task, s.tasks[e.tid]? = some tk → tk.wake = e.tto.map (fun w => (w, e.hasFds)) := by
-  have h := NE.run cfg n (Inv.init t0 tasks timers ss rs) (NE.init t0 tasks timers ss rs)
+  have h := NE.run cfg n (Inv.init t0 tasks timers ss rs ps ds) (NE.init t0 tasks timers ss rs ps ds)
   subst hs
   intro e he tk htk
   have := h.2.1.entry e he
   simp only [wkL] at this
-  have htk' : (run cfg n (initSt t0 tasks timers ss rs)).tasks[e.tid]? = some tk := htk
+  have htk' : (run cfg n (initSt t0 tasks timers ss rs ps ds)).tasks[e.tid]? = some tk := htk
   rw [htk'] at this
   simpa using this
 
-/-- **isolation.**  When the step of a top-level task raises, that task is descheduled (dead, in no queue) and nothing else
-changes: the ready deque loses exactly its head, hub, clock, quit flag, timers and every other task are untouched.  With
-`single_place` (a dead task is never in a queue again) the task never runs again. -/
-theorem isolation (s : St) (t : Nat) (rest : List Nat) (tk : Task) (k : Nat) (prog : List Y) (e : Exc)
-    (hrun : s.running = none) (hrd : s.ready = t :: rest) (htk : s.tasks[t]? = some tk)
-    (hkind : tk.kind = .top k) (hprog : cfg.progs[k]? = some prog) (hrf : tk.rf = none) (hre : tk.re = none)
-    (hraise : genStep s.timers.length prog tk.pc (.val tk.rv) = .raise e) :
+/-- **wake_is_requested.**  When the lottery picks a top-level task (no `Recv`/`Send` return function pending) and its
+generator yields `y` at time `now`, the wake time noted for it afterwards is exactly the one `y` asks for (`reqWake now y`:
+`now + d` for `Sleep d` / `yield d` / a timeout `d`, the absolute time for `Sleep(t, absoluteTime=True)`, none otherwise). -/
+theorem wake_is_requested (s : St) (t : Nat) (rest ds' : List Nat) (tk : Task) (k : Nat) (prog : List Y) (y : Y)
+    (hrun : s.running = none) (hpop : lottery s.tasks s.draws s.ready = some (t, rest, ds')) (htk : s.tasks[t]? = some tk)
+    (hkind : tk.kind = .top k) (hprog : cfg.progs[k]? = some prog) (hrf : tk.rf = none)
+    (hy : genStep s.timers.length prog tk.pc (pendingRecv tk) = .yield y) :
+    wkL (cycle cfg s).tasks t = reqWake s.now y :=
+  cycle_wake cfg s t rest ds' tk k prog y hrun hpop htk hkind hprog hrf hy
+
+/-- **wake_kept.**  The noted wake time of a task does not change while the task is not the one being run: not by a hub pass,
+not by a cycle in which it is not in the ready deque.  (With `wake_is_requested` before and `delivery` after — the event records
+`tk.wake` — the `w` of `not_early` is the requested time.  This is a chain of one-step theorems, not one trace-level statement;
+and a `Send` that is re-registered after a partial write restarts its timeout, as the code does.) -/
+theorem wake_kept (s : St) (u : Nat) :
+    wkL (idleStep cfg s).tasks u = wkL s.tasks u ∧
+    (s.running = none → u ∉ s.ready → u < s.tasks.length → wkL (cycle cfg s).tasks u = wkL s.tasks u) :=
+  ⟨idle_wake cfg s u, fun hrun hu hl => cycle_wake_other cfg s hrun u hu hl⟩
+
+/-- **expired_returns.**  One hub pass puts every hub entry whose timeout has expired back into the ready deque (reachable,
+not crashed states; the hub is polled when the deque is empty). -/
+theorem expired_returns (s : St) (hs : s = reach cfg t0 tasks timers ss rs ps ds n) (hc : s.crashed = false) (hr : s.ready = [])
+    (e : HubEntry) (he : e ∈ s.hub) (w : Nat) (hw : e.tto = some w) (hle : w ≤ s.now) : e.tid ∈ (idleStep cfg s).ready := by
+  subst hs
+  exact Pox.Recoco.expired_returns cfg (Inv.run cfg n (Inv.init t0 tasks timers ss rs ps ds)) hc hr e he w hw hle
+
+/-- **no_crash.**  For a well-formed program table (every `Again` names an existing program) and task list, the scheduler never
+reaches one of its own failure points (`assert task not in self._ready`, a `KeyError` on a missing task or hub entry, a missing
+program): `crashed` stays false in every reachable state. -/
+theorem no_crash (hwf : WFcfg cfg) (ht : ∀ k ∈ tasks, k < cfg.progs.length) :
+    (reach cfg t0 tasks timers ss rs ps ds n).crashed = false :=
+  (NC.run cfg hwf n (Inv.init t0 tasks timers ss rs ps ds) (NC.init cfg t0 tasks timers ss rs ps ds ht)).crashed
+
+/-- **isolation.**  When the step of a top-level task raises — on whatever is pending for it: a value, or the exception of a
+sub-task it does not catch (`pendingRecv tk`) — that task is descheduled (dead, in no queue) and nothing else changes: the ready
+deque loses exactly the popped task, hub, clock, quit flag, timers and every other task are untouched.  With `single_place` and
+`finished_never_runs` the task never runs again. -/
+theorem isolation (s : St) (t : Nat) (rest ds' : List Nat) (tk : Task) (k : Nat) (prog : List Y) (e : Exc)
+    (hrun : s.running = none) (hpop : lottery s.tasks s.draws s.ready = some (t, rest, ds')) (htk : s.tasks[t]? = some tk)
+    (hkind : tk.kind = .top k) (hprog : cfg.progs[k]? = some prog) (hrf : tk.rf = none)
+    (hraise : genStep s.timers.length prog tk.pc (pendingRecv tk) = .raise e) :
     let s' := cycle cfg s
     s'.ready = rest ∧ s'.running = none ∧ s'.incoming = s.incoming ∧ s'.hub = s.hub ∧ s'.now = s.now ∧
-    s'.hasQuit = s.hasQuit ∧ s'.timers = s.timers ∧
+    s'.hasQuit = s.hasQuit ∧ s'.crashed = s.crashed ∧ s'.timers = s.timers ∧
     (∀ u, u ≠ t → s'.tasks[u]? = s.tasks[u]?) ∧ stL s'.tasks t = some .dead ∧
-    s'.trace = s.trace ++ [.step t tk.pc s.now (.val tk.rv) tk.wake] :=
-  isolation_step cfg s t rest tk k prog e hrun hrd htk hkind hprog hrf hre hraise
+    s'.trace = s.trace ++ [.step t tk.pc s.now (pendingRecv tk) tk.rv tk.wake] :=
+  cycle_raise cfg s t rest ds' tk k prog e hrun hpop htk hkind hprog hrf hraise
 
-/-- **again_return.**  When the generator of a sub-task finishes (raises, runs out, or yields a plain value), exactly its
-caller `p` gets the outcome (`deliver`: `rv` for a value, `re` for an exception), `p` becomes the head of the ready deque (it
-runs next), the sub-task is done, and no other task is touched. -/
-theorem again_return (s : St) (c p k : Nat) (rest : List Nat) (tk ptk : Task) (prog : List Y)
-    (hrun : s.running = none) (hrd : s.ready = c :: rest) (htk : s.tasks[c]? = some tk)
-    (hkind : tk.kind = .sub k p) (hprog : cfg.progs[k]? = some prog) (hrf : tk.rf = none) (hre : tk.re = none)
-    (hp : s.tasks[p]? = some ptk) (hpc : p ≠ c) (hnr : p ∉ rest)
-    (hfin : (genStep s.timers.length prog tk.pc (.val tk.rv)).final = true) :
+/-- **isolation, generator stage**: the same for any value `r` the generator is resumed with — in particular the result a
+`Recv`/`Send` return function computed. -/
+theorem isolation_gen (s : St) (t : Nat) (tk : Task) (k : Nat) (prog : List Y) (e : Exc) (r : Recv) (raw : Val)
+    (htk : s.tasks[t]? = some tk) (hkind : tk.kind = .top k) (hprog : cfg.progs[k]? = some prog)
+    (hraise : genStep s.timers.length prog tk.pc r = .raise e) :
+    let s' := resumeGen cfg s t tk r raw
+    s'.ready = s.ready ∧ s'.running = s.running ∧ s'.incoming = s.incoming ∧ s'.hub = s.hub ∧ s'.now = s.now ∧
+    s'.hasQuit = s.hasQuit ∧ s'.crashed = s.crashed ∧ s'.timers = s.timers ∧
+    (∀ u, u ≠ t → s'.tasks[u]? = s.tasks[u]?) ∧ stL s'.tasks t = some .dead ∧
+    s'.trace = s.trace ++ [.step t tk.pc s.now r raw tk.wake] :=
+  resumeGen_raise cfg s t tk k prog e r raw htk hkind hprog hraise
+
+/-- **isolation, return function raises** (`Recv`/`Send` handed something that is not a select result; D25 before its repair):
+the generator is not resumed at all, the task is descheduled, and apart from the socket scripts nothing else changes. -/
+theorem isolation_rf (s s1 : St) (t : Nat) (rest ds' : List Nat) (tk : Task) (e : Exc)
+    (hrun : s.running = none) (hpop : lottery s.tasks s.draws s.ready = some (t, rest, ds')) (htk : s.tasks[t]? = some tk)
+    (hpre : execPre cfg { popped s t rest ds' with running := none } t tk = (.raised e, s1)) :
     let s' := cycle cfg s
-    let o := genStep s.timers.length prog tk.pc (.val tk.rv)
+    s'.ready = rest ∧ s'.running = none ∧ s'.incoming = s.incoming ∧ s'.hub = s.hub ∧ s'.now = s.now ∧
+    s'.hasQuit = s.hasQuit ∧ s'.crashed = s.crashed ∧ s'.timers = s.timers ∧
+    (∀ u, u ≠ t → s'.tasks[u]? = s.tasks[u]?) ∧ stL s'.tasks t = some .dead ∧ s'.trace = s.trace :=
+  cycle_rf_raised cfg s s1 t rest ds' tk e hrun hpop htk hpre
+
+/-- **again_return.**  When the generator of a sub-task finishes (raises, runs out, or yields a plain value) — resumed with
+whatever is pending for it — exactly its caller `p` gets the outcome (`deliver`: `rv` for a value, `re` for an exception), `p`
+becomes the head of the ready deque, the sub-task is done, and no other task is touched. -/
+theorem again_return (s : St) (c p k : Nat) (rest ds' : List Nat) (tk ptk : Task) (prog : List Y)
+    (hrun : s.running = none) (hpop : lottery s.tasks s.draws s.ready = some (c, rest, ds')) (htk : s.tasks[c]? = some tk)
+    (hkind : tk.kind = .sub k p) (hprog : cfg.progs[k]? = some prog) (hrf : tk.rf = none)
+    (hp : s.tasks[p]? = some ptk) (hpc : p ≠ c) (hnr : p ∉ rest)
+    (hfin : (genStep s.timers.length prog tk.pc (pendingRecv tk)).final = true) :
+    let s' := cycle cfg s
+    let o := genStep s.timers.length prog tk.pc (pendingRecv tk)
     s'.ready = p :: rest ∧ s'.running = none ∧ s'.incoming = s.incoming ∧ s'.hub = s.hub ∧ s'.now = s.now ∧
     s'.tasks[p]? = some (deliver cfg.fixEmptySub o tk.pc (if tk.pc = 0 then { ptk with rv := .none } else ptk)) ∧
-    (∀ u, u ≠ c → u ≠ p → s'.tasks[u]? = s.tasks[u]?) ∧ stL s'.tasks c = some .done :=
-  again_return_step cfg s c p k rest tk ptk prog hrun hrd htk hkind hprog hrf hre hp hpc hnr hfin
+    (∀ u, u ≠ c → u ≠ p → s'.tasks[u]? = s.tasks[u]?) ∧ stL s'.tasks c = some .done ∧
+    s'.trace = s.trace ++ [.step c tk.pc s.now (pendingRecv tk) tk.rv tk.wake] :=
+  cycle_final cfg s c p k rest ds' tk ptk prog hrun hpop htk hkind hprog hrf hp hpc hnr hfin
 
-/-- **delivery.**  The task at the head of the ready deque is the one that runs, once, and its generator receives exactly what
-is pending for *it* (its `re` if set, else its `rv`) — for the caller of a sub-task that is what `again_return` stored. -/
-theorem delivery (s : St) (t : Nat) (rest : List Nat) (tk : Task) (prog : List Y)
-    (hrun : s.running = none) (hrd : s.ready = t :: rest) (htk : s.tasks[t]? = some tk) (hrf : tk.rf = none)
-    (hprog : progOf cfg tk.kind = some prog) :
-    (cycle cfg s).trace = s.trace ++ [.step t tk.pc s.now (pendingRecv tk) tk.wake] :=
-  resume_receives cfg s t rest tk prog hrun hrd htk hrf hprog
+/-- **again_return, generator stage**: the same for any value `r` the sub-task's generator is resumed with (e.g. the result of
+its own `Recv`/`Send`). -/
+theorem again_return_gen (s : St) (c p k : Nat) (tk ptk : Task) (prog : List Y) (r : Recv) (raw : Val)
+    (htk : s.tasks[c]? = some tk) (hkind : tk.kind = .sub k p) (hprog : cfg.progs[k]? = some prog)
+    (hp : s.tasks[p]? = some ptk) (hpc : p ≠ c) (hnr : p ∉ s.ready)
+    (hfin : (genStep s.timers.length prog tk.pc r).final = true) :
+    let s' := resumeGen cfg s c tk r raw
+    let o := genStep s.timers.length prog tk.pc r
+    s'.ready = p :: s.ready ∧ s'.running = s.running ∧ s'.incoming = s.incoming ∧ s'.hub = s.hub ∧ s'.now = s.now ∧
+    s'.tasks[p]? = some (deliver cfg.fixEmptySub o tk.pc (if tk.pc = 0 then { ptk with rv := .none } else ptk)) ∧
+    (∀ u, u ≠ c → u ≠ p → s'.tasks[u]? = s.tasks[u]?) ∧ stL s'.tasks c = some .done ∧
+    s'.trace = s.trace ++ [.step c tk.pc s.now r raw tk.wake] :=
+  resumeGen_final cfg s c p k tk ptk prog r raw htk hkind hprog hp hpc hnr hfin
+
+/-- **caller_resumed_next.**  If the caller has priority ≥ 1 (the default), the very next cycle resumes *it*, and its generator
+receives the outcome `again_return` stored: the trace grows by the sub-task's last step followed by the caller's step.  (For a
+caller with priority < 1 the lottery may pass it over — it is at the head of the deque but can lose the draw; then other tasks
+run first.  That is the code's behaviour, not a modelling gap.) -/
+theorem caller_resumed_next (s : St) (c p k : Nat) (rest ds' : List Nat) (tk ptk : Task) (prog pprog : List Y)
+    (hrun : s.running = none) (hpop : lottery s.tasks s.draws s.ready = some (c, rest, ds')) (htk : s.tasks[c]? = some tk)
+    (hkind : tk.kind = .sub k p) (hprog : cfg.progs[k]? = some prog) (hrf : tk.rf = none)
+    (hp : s.tasks[p]? = some ptk) (hpc : p ≠ c) (hnr : p ∉ rest)
+    (hfin : (genStep s.timers.length prog tk.pc (pendingRecv tk)).final = true)
+    (hprf : ptk.rf = none) (hpprog : progOf cfg ptk.kind = some pprog) (hprio : 8 ≤ ptk.prio) :
+    let o := genStep s.timers.length prog tk.pc (pendingRecv tk)
+    let ptk' := deliver cfg.fixEmptySub o tk.pc (if tk.pc = 0 then { ptk with rv := .none } else ptk)
+    (cycle cfg (cycle cfg s)).trace =
+      s.trace ++ [.step c tk.pc s.now (pendingRecv tk) tk.rv tk.wake, .step p ptk.pc s.now (pendingRecv ptk') ptk'.rv ptk.wake] :=
+  again_then_caller cfg s c p k rest ds' tk ptk prog pprog hrun hpop htk hkind hprog hrf hp hpc hnr hfin hprf hpprog hprio
+
+/-- **delivery.**  The task the lottery picks is the one that runs, once, and its generator receives exactly what is pending
+for *it* (its `re` if set, else its `rv`) — for the caller of a sub-task that is what `again_return` stored.  The event also
+records the wake time noted for the task. -/
+theorem delivery (s : St) (t : Nat) (rest ds' : List Nat) (tk : Task) (prog : List Y)
+    (hrun : s.running = none) (hpop : lottery s.tasks s.draws s.ready = some (t, rest, ds')) (htk : s.tasks[t]? = some tk)
+    (hrf : tk.rf = none) (hprog : progOf cfg tk.kind = some prog) :
+    (cycle cfg s).trace = s.trace ++ [.step t tk.pc s.now (pendingRecv tk) tk.rv tk.wake] :=
+  cycle_event cfg s t rest ds' tk prog hrun hpop htk hrf hprog
 
 
 /-- **finished_never_runs** (the multi-step half of `isolation`).  A task that is done or dead — it raised, its generator ended,
 or a return function raised — keeps its step counter and status for ever: no later iteration adds a step event for it. -/
-theorem finished_never_runs (s : St) (hs : s = reach cfg t0 tasks timers ss rs n) (t : Nat) (tk : Task)
+theorem finished_never_runs (s : St) (hs : s = reach cfg t0 tasks timers ss rs ps ds n) (t : Nat) (tk : Task)
     (htk : s.tasks[t]? = some tk) (hd : tk.st ≠ .live) (m : Nat) :
     (run cfg m s).trace.filterMap (stepIdx t) = s.trace.filterMap (stepIdx t) ∧
     ∃ tk', (run cfg m s).tasks[t]? = some tk' ∧ tk'.st = tk.st ∧ tk'.pc = tk.pc := by
   subst hs
-  have hi : Inv (reach cfg t0 tasks timers ss rs n) := Inv.run cfg n (Inv.init t0 tasks timers ss rs)
-  have hpo : PO cfg (reach cfg t0 tasks timers ss rs n) :=
-    PO.run cfg n (Inv.init t0 tasks timers ss rs) (PO.init cfg t0 tasks timers ss rs)
-  have hrun := no_overlap cfg t0 tasks timers ss rs n
-  have hc : ((reach cfg t0 tasks timers ss rs n).tasks.map ctl)[t]? = some (ctl tk) := by simp [htk]
+  have hi : Inv (reach cfg t0 tasks timers ss rs ps ds n) := Inv.run cfg n (Inv.init t0 tasks timers ss rs ps ds)
+  have hpo : PO cfg (reach cfg t0 tasks timers ss rs ps ds n) :=
+    PO.run cfg n (Inv.init t0 tasks timers ss rs ps ds) (PO.init cfg t0 tasks timers ss rs ps ds)
+  have hrun := no_overlap cfg t0 tasks timers ss rs ps ds n
+  have hc : ((reach cfg t0 tasks timers ss rs ps ds n).tasks.map ctl)[t]? = some (ctl tk) := by simp [htk]
   have hstay := dead_stays cfg m hi hrun t (ctl tk) hc (by simpa [ctl] using hd)
   have hpo' := PO.run cfg m hi hpo
   refine ⟨?_, ?_⟩
   · rw [hpo'.idx t, hpo.idx t]; simp only [pcC, hstay, hc]
   · simp only [List.getElem?_map] at hstay
-    cases hk : (run cfg m (reach cfg t0 tasks timers ss rs n)).tasks[t]? with
+    cases hk : (run cfg m (reach cfg t0 tasks timers ss rs ps ds n)).tasks[t]? with
     | none => simp [hk] at hstay
     | some tk' =>
       simp [hk, ctl] at hstay
@@ -180,60 +304,69 @@ theorem finished_never_runs (s : St) (hs : s = reach cfg t0 tasks timers ss rs n
 /-- **fair**, full statement: from every reachable state every task in the ready deque gets to its head after finitely many
 cycles.  NOT proved, and false without a bound on sub-task call depth: `Again` call and return deliberately jump the queue
 (`first=True`), so a task that keeps calling sub-functions (or a recursive sub-function) starves the others. -/
-def fair_full (cfg : Cfg) (t0 : Nat) (tasks : List Nat) (timers : List TimerCfg) (ss rs : List (Option Nat)) : Prop :=
-  ∀ n t, t ∈ (reach cfg t0 tasks timers ss rs n).ready → ∃ m, (cycles cfg m (reach cfg t0 tasks timers ss rs n)).ready.head? = some t
+def fair_full (cfg : Cfg) (t0 : Nat) (tasks : List Nat) (timers : List TimerCfg) (ss rs : List (Option Nat)) (ps ds : List Nat) : Prop :=
+  ∀ n t, t ∈ (reach cfg t0 tasks timers ss rs ps ds n).ready → ∃ m, (cycles cfg m (reach cfg t0 tasks timers ss rs ps ds n)).ready.head? = some t
 
-/-- **fair_partial** (program tables without sub-task calls, from any state without sub-tasks): the task at position `k` of
-the ready deque is at its head after exactly `k` cycles — every cycle moves it one place forward and nothing overtakes it; so a
-ready task runs within `ready.length` cycles.  (The hub is polled only when the deque is empty, so nothing enters in front.) -/
-theorem fair_partial (hna : NoAgain cfg) (k : Nat) (s : St) (t : Nat) (hns : NoSub s) (hrun : s.running = none)
+/-- **fair_partial** (program tables without sub-task calls, all priorities ≥ 1, from any state without sub-tasks): the task at
+position `k` of the ready deque is at its head after exactly `k` cycles — every cycle moves it one place forward and nothing
+overtakes it; so a ready task runs within `ready.length` cycles.  (The hub is polled only when the deque is empty, so nothing
+enters in front.  With priorities < 1 the order depends on the random draws and no bound holds.) -/
+theorem fair_partial (hna : NoAgain cfg) (k : Nat) (s : St) (t : Nat) (hns : NoSub s) (hhp : HiPrio s) (hrun : s.running = none)
     (hk : s.ready[k]? = some t) : (cycles cfg k s).ready.head? = some t :=
-  (fair_cycles cfg hna k s t hns hrun hk).1
+  (fair_cycles cfg hna k s t hns hhp hrun hk).1
 
 /-- **timer.**  In every reachable state, for the task `t` that runs timer `j` (record `tm`):
 * its firings in the trace are numbered `0 … tm.fired-1`, once each, in order;
 * a one-shot timer has fired at most once; a self-stoppable timer whose callback returns `False` at firing `m` has fired at
   most `m+1` times; in both cases the record is then `final` (the task sits on its trailing `yield False`).
-(That a firing is not early is `not_early` applied to the timer task's own step event: the callback runs in the same cycle as
-that resume; the link between the event's wake time and the record's `next` is checked by the oracle only.) -/
-theorem timer (s : St) (hs : s = reach cfg t0 tasks timers ss rs n) (t j : Nat) (tm : TimerSt)
+(That a firing is not early is `timer_not_early`.) -/
+theorem timer (s : St) (hs : s = reach cfg t0 tasks timers ss rs ps ds n) (t j : Nat) (tm : TimerSt)
     (hk : kdL s.tasks t = some (.timer j)) (htm : s.timers[j]? = some tm) :
     s.trace.filterMap (fireIdx t) = List.range tm.fired ∧
     (tm.cfg.recurring = false → tm.fired ≤ 1 ∧ (tm.fired = 1 → tm.final = true)) ∧
     (∀ m, tm.cfg.selfStop = true → tm.cfg.falseAt = some m → tm.fired ≤ m + 1 ∧ (tm.fired = m + 1 → tm.final = true)) ∧
     (∃ c, timers[j]? = some c ∧ tm.cfg = c) := by
   subst hs
-  have hfi : FI (reach cfg t0 tasks timers ss rs n) := FI.run cfg n (FI.init t0 tasks timers ss rs)
-  have hfr := TFr.run cfg n (initSt t0 tasks timers ss rs)
-  have hlt : j < (initSt t0 tasks timers ss rs).timers.length := by
+  have hfi : FI (reach cfg t0 tasks timers ss rs ps ds n) := FI.run cfg n (FI.init t0 tasks timers ss rs ps ds)
+  have hfr := TFr.run cfg n (initSt t0 tasks timers ss rs ps ds)
+  have hlt : j < (initSt t0 tasks timers ss rs ps ds).timers.length := by
     rw [← hfr.1]; exact (List.getElem?_eq_some_iff.mp htm).1
-  obtain ⟨a, ha⟩ : ∃ a, (initSt t0 tasks timers ss rs).timers[j]? = some a := ⟨_, List.getElem?_eq_getElem hlt⟩
+  obtain ⟨a, ha⟩ : ∃ a, (initSt t0 tasks timers ss rs ps ds).timers[j]? = some a := ⟨_, List.getElem?_eq_getElem hlt⟩
   have hstar := hfr.2 j a tm ha htm
-  obtain ⟨hok, _, c, hc, hcfg⟩ := TOK.initSt t0 tasks timers ss rs j a ha
+  obtain ⟨hok, _, c, hc, hcfg⟩ := TOK.initSt t0 tasks timers ss rs ps ds j a ha
   have hok' := hstar.ok hok
   exact ⟨hfi.count t j tm hk htm, hok'.oneShot, hok'.selfStop, c, hc, by rw [hstar.cfg, hcfg]⟩
 
 /-- **timer, cancelled / stopped.**  Once a timer record is cancelled (or final) it never fires again: the firing counter and
 hence the timer task's firings in the trace stay what they are, for ever. -/
-theorem timer_stopped (s : St) (hs : s = reach cfg t0 tasks timers ss rs n) (t j : Nat) (tm : TimerSt)
+theorem timer_stopped (s : St) (hs : s = reach cfg t0 tasks timers ss rs ps ds n) (t j : Nat) (tm : TimerSt)
     (hk : kdL s.tasks t = some (.timer j)) (htm : s.timers[j]? = some tm) (hstop : tm.cancelled = true ∨ tm.final = true) (m : Nat) :
     (run cfg m s).trace.filterMap (fireIdx t) = s.trace.filterMap (fireIdx t) := by
   subst hs
-  have hfi : FI (reach cfg t0 tasks timers ss rs n) := FI.run cfg n (FI.init t0 tasks timers ss rs)
+  have hfi : FI (reach cfg t0 tasks timers ss rs ps ds n) := FI.run cfg n (FI.init t0 tasks timers ss rs ps ds)
   have hfi' := FI.run cfg m hfi
-  have hfr := TFr.run cfg m (reach cfg t0 tasks timers ss rs n)
-  have hlt : j < (run cfg m (reach cfg t0 tasks timers ss rs n)).timers.length := by
+  have hfr := TFr.run cfg m (reach cfg t0 tasks timers ss rs ps ds n)
+  have hlt : j < (run cfg m (reach cfg t0 tasks timers ss rs ps ds n)).timers.length := by
     rw [hfr.1]; exact (List.getElem?_eq_some_iff.mp htm).1
-  obtain ⟨b, hb⟩ : ∃ b, (run cfg m (reach cfg t0 tasks timers ss rs n)).timers[j]? = some b := ⟨_, List.getElem?_eq_getElem hlt⟩
+  obtain ⟨b, hb⟩ : ∃ b, (run cfg m (reach cfg t0 tasks timers ss rs ps ds n)).timers[j]? = some b := ⟨_, List.getElem?_eq_getElem hlt⟩
   have hstar := hfr.2 j tm b htm hb
   have hfired : b.fired = tm.fired := by
     rcases hstop with h | h
     · exact (hstar.cancelled h).2
     · exact (hstar.final h).2
   -- the task that runs timer `j` is still task `t`
-  have hk' : kdL (run cfg m (reach cfg t0 tasks timers ss rs n)).tasks t = some (.timer j) := by
+  have hk' : kdL (run cfg m (reach cfg t0 tasks timers ss rs ps ds n)).tasks t = some (.timer j) := by
     exact kind_stable cfg m _ t _ hk
   rw [hfi'.count t j b hk' hb, hfi.count t j tm hk htm, hfired]
+
+/-- **timer_not_early.**  The firing number `k` (from 0) of the timer with configuration `c` happens at or after
+`t0 + c.delay + k * interval`, where `interval` is `c.delay` for a recurring timer and 0 for a one-shot one (`ivl c`) and `t0`
+is the time the timer was started.  (Recurring timers reschedule relative to the actual firing time, so they can only drift
+later.) -/
+theorem timer_not_early (t k x : Nat) (h : Ev.fire t k x ∈ (reach cfg t0 tasks timers ss rs ps ds n).trace) :
+    ∃ j c, kdL (reach cfg t0 tasks timers ss rs ps ds n).tasks t = some (.timer j) ∧ timers[j]? = some c ∧
+      t0 + c.delay + k * ivl c ≤ x :=
+  Pox.Recoco.timer_not_early cfg t0 tasks timers ss rs ps ds n t k x h
 
 /-! ## non-vacuity: concrete runs that satisfy the hypotheses -/
 
@@ -241,31 +374,78 @@ theorem timer_stopped (s : St) (hs : s = reach cfg t0 tasks timers ss rs n) (t j
 def demoCfg : Cfg :=
   { progs := [[.num 0, .num 12, .sleep (some 16), .num 0], [.select [] [] [] (some 4), .num 0, .num 24]],
     env := { rAt := [], wAt := [], xAt := [] } }
-def demo (n : Nat) : St := reach demoCfg 8000 [0, 1] [{ delay := 18, recurring := true, selfStop := true, falseAt := some 2 }] [] [] n
+def demo (n : Nat) : St :=
+  reach demoCfg 8000 [0, 1] [{ delay := 18, recurring := true, selfStop := true, falseAt := some 2 }] [] [] [] [] n
 
 example : (demo 20).hasQuit = true ∧ (demo 20).now = 8054 ∧ (demo 20).trace.length = 16 := by decide
 /-- `not_early` is not vacuous: the run contains timed resumes, e.g. task 1 woken at 8004 for a wait until 8004 -/
-example : Ev.step 1 1 8004 (.val timeoutVal) (some (8004, false)) ∈ (demo 19).trace := by decide
+example : Ev.step 1 1 8004 (.val timeoutVal) timeoutVal (some (8004, false)) ∈ (demo 19).trace := by decide
 example : (demo 19).trace.filterMap (stepIdx 0) = [0, 1, 2, 3, 4] := by decide
+/-- `timer_not_early`: the demo timer (delay 18, recurring) fires at 8018, 8036, 8054 -/
+example : (demo 20).trace.filterMap (fun e => match e with | .fire t k x => some (t, k, x) | _ => none) =
+    [(2, 0, 8018), (2, 1, 8036), (2, 2, 8054)] := by decide
+
+/-- `not_early` for `Recv` with a timeout: nothing ever arrives, the task is resumed at the deadline with `None`; the raw value
+the hub handed back is the timeout value -/
+def recvCfg : Cfg := { progs := [[.recv 3 (some 8), .num 0]], env := { rAt := [], wAt := [], xAt := [] } }
+example : Ev.step 0 1 8008 (.val .none) timeoutVal (some (8008, true)) ∈ (reach recvCfg 8000 [0] [] [] [] [] [] 6).trace := by decide
+
+/-- the lottery with priorities < 1 (units of 1/8: priority 0.5 = 4) and scripted draws: both tasks lose the first sweep (draws
+5/8 > 4/8), the draws run out (0.0 from then on) and the head wins — it is popped, the other stays queued -/
+example : let s := initSt 8000 [0, 1] [] [] [] [4, 4] [5, 5]
+    lottery s.tasks s.draws s.ready = some (0, [1], []) ∧ (cyclePop s).running = some 0 ∧ (cyclePop s).ready = [1] := by decide
+/-- … and a draw sequence that lets task 1 overtake task 0 -/
+def lotCfg : Cfg := { progs := [[.num 0], [.num 0]], env := { rAt := [], wAt := [], xAt := [] } }
+example : (reach lotCfg 8000 [0, 1] [] [] [] [4, 4] [5, 5, 5, 3] 3).trace.filterMap (fun e => match e with | .step t i _ _ _ _ => some (t, i) | _ => none) =
+    [(1, 0), (0, 0), (1, 1)] := by decide
 
 /-- `isolation` hypotheses hold in the initial state of: task 0 raises at once, task 1 is a bystander -/
 def isoCfg : Cfg := { progs := [[.raise 7], [.num 0]], env := { rAt := [], wAt := [], xAt := [] } }
-example : let s := initSt 8000 [0, 1] [] [] []
-    s.running = none ∧ s.ready = 0 :: [1] ∧ s.tasks[0]? = some { kind := .top 0 } ∧ isoCfg.progs[0]? = some [.raise 7] ∧
-    genStep s.timers.length [.raise 7] 0 (.val .none) = .raise (.user 7) := by decide
+example : let s := initSt 8000 [0, 1] [] [] [] [] []
+    s.running = none ∧ lottery s.tasks s.draws s.ready = some (0, [1], []) ∧ s.tasks[0]? = some { kind := .top 0 } ∧
+    isoCfg.progs[0]? = some [.raise 7] ∧
+    genStep s.timers.length [.raise 7] 0 (pendingRecv { kind := .top 0 }) = .raise (.user 7) := by decide
+/-- `isolation` for an uncaught sub-task exception: the caller (task 0) does not catch, the sub-task raises; the caller is resumed
+with the exception pending and dies of it, the bystander (task 1) goes on -/
+def iso2Cfg : Cfg := { progs := [[.again 2 false, .num 0], [.num 0, .num 0], [.raise 5]], env := { rAt := [], wAt := [], xAt := [] } }
+example : ((reach iso2Cfg 8000 [0, 1] [] [] [] [] [] 4).tasks.map (·.st)) = [.dead, .live, .done] ∧
+    Ev.step 0 1 8000 (.exc (.user 5)) .none none ∈ (reach iso2Cfg 8000 [0, 1] [] [] [] [] [] 4).trace := by decide
+/-- `isolation_rf`: D25 before its repair — the return function of `Send` raises, the generator is not resumed (no step 1) -/
+def sendCfg : Cfg := { progs := [[.send 0 10 none 4, .num 0]], env := { rAt := [], wAt := [some 8000], xAt := [] } }
+example : let s := reach sendCfg 8000 [0] [] [some 0] [] [] [] 3
+    (s.tasks.map (·.st)) = [.dead] ∧ s.trace.filterMap (stepIdx 0) = [0] := by decide
 
-/-- `again_return` hypotheses hold after the caller (task 0) has yielded `Again(f1)`: sub-task 1 is at the head of the deque -/
+/-- `again_return` hypotheses hold after the caller (task 0) has yielded `Again(f1)`: sub-task 1 is the one the lottery picks -/
 def subCfg : Cfg := { progs := [[.again 1 true, .num 0], [.num 3]], env := { rAt := [], wAt := [], xAt := [] } }
-example : let s := reach subCfg 8000 [0] [] [] [] 1
-    s.running = none ∧ s.ready = 1 :: [] ∧ (s.tasks[1]?).map (·.kind) = some (.sub 1 0) ∧ (s.tasks[1]?).map (·.pc) = some 0 ∧
+example : let s := reach subCfg 8000 [0] [] [] [] [] [] 1
+    s.running = none ∧ lottery s.tasks s.draws s.ready = some (1, [], []) ∧ (s.tasks[1]?).map (·.kind) = some (.sub 1 0) ∧
+    (s.tasks[1]?).map (·.pc) = some 0 ∧ (s.tasks[1]?).map (·.rf) = some none ∧
+    (s.tasks[0]?).map (fun k => (k.rf, decide (8 ≤ k.prio))) = some (none, true) ∧
     (genStep s.timers.length [.num 3] 0 (.val .none)).final = true := by decide
-/-- … and two cycles later the caller has received the sub-task's value -/
-example : Ev.step 0 1 8000 (.val (.num 3)) none ∈ (reach subCfg 8000 [0] [] [] [] 3).trace := by decide
+/-- … and two cycles later the caller has received the sub-task's value (`caller_resumed_next`) -/
+example : Ev.step 0 1 8000 (.val (.num 3)) (.num 3) none ∈ (reach subCfg 8000 [0] [] [] [] [] [] 3).trace := by decide
 
-/-- `fair_partial`: the demo program table has no sub-task calls, the initial state no sub-tasks, and task 1 is second in line -/
-example : NoAgain demoCfg ∧ NoSub (demo 0) ∧ (demo 0).running = none ∧ (demo 0).ready[1]? = some 1 ∧
+/-- `no_crash`: the hypotheses hold for the sub-task scenario -/
+example : WFcfg subCfg ∧ ∀ k ∈ [0], k < subCfg.progs.length := by
+  refine ⟨?_, by decide⟩
+  intro prog hp y hy k c e
+  subst e
+  simp only [subCfg, List.mem_cons, List.not_mem_nil, or_false] at hp
+  rcases hp with rfl | rfl
+  · simp at hy; obtain ⟨rfl, _⟩ := hy; decide
+  · simp at hy
+
+/-- `expired_returns`: two tasks sleep until the same time; after the hub pass that woke the first, the second is still in the
+hub table with its deadline reached and the ready deque is empty — the next pass returns it -/
+def twoCfg : Cfg := { progs := [[.sleep (some 16)], [.sleep (some 16)]], env := { rAt := [], wAt := [], xAt := [] } }
+example : let s := reach twoCfg 8000 [0, 1] [] [] [] [] [] 4
+    s.crashed = false ∧ s.ready = [] ∧ s.now = 8016 ∧ s.hub = [⟨1, [], [], [], some 8016⟩] ∧ (idleStep twoCfg s).ready = [1] := by decide
+
+/-- `fair_partial`: the demo program table has no sub-task calls, the initial state no sub-tasks, all priorities are 1, and
+task 1 is second in line -/
+example : NoAgain demoCfg ∧ NoSub (demo 0) ∧ HiPrio (demo 0) ∧ (demo 0).running = none ∧ (demo 0).ready[1]? = some 1 ∧
     (cycles demoCfg 1 (demo 0)).ready.head? = some 1 := by
-  refine ⟨by unfold NoAgain; decide, ?_, by decide, by decide, by decide⟩
+  refine ⟨by unfold NoAgain; decide, ?_, by unfold HiPrio; decide, by decide, by decide, by decide⟩
   intro k hk a p
   have : (demo 0).tasks.map (·.kind) = [.top 0, .top 1, .timer 0] := by decide
   rw [this] at hk
@@ -276,41 +456,50 @@ example : NoAgain demoCfg ∧ NoSub (demo 0) ∧ (demo 0).running = none ∧ (de
 example : kdL (demo 20).tasks 2 = some (.timer 0) ∧ ((demo 20).timers[0]?).map (·.fired) = some 3 ∧
     ((demo 20).timers[0]?).map (·.final) = some true ∧ (demo 20).trace.filterMap (fireIdx 2) = [0, 1, 2] := by decide
 
-/-- `finished_never_runs`: after one iteration of the isolation scenario task 0 is dead (and task 1 still live) -/
-example : ((reach isoCfg 8000 [0, 1] [] [] [] 1).tasks.map (·.st)) = [.dead, .live] := by decide
+/-- `timer_stopped` with `cancelled = true` (not yet final): task 0 cancels the recurring timer before its first firing; the
+timer task (task 1) never fires, although the run goes on past the time it was due -/
+def cancelCfg : Cfg := { progs := [[.cancel 0, .num 0, .sleep (some 40)]], env := { rAt := [], wAt := [], xAt := [] } }
+def cancelRun (n : Nat) : St := reach cancelCfg 8000 [0] [{ delay := 18, recurring := true, selfStop := false, falseAt := none }] [] [] [] [] n
+example : kdL (cancelRun 1).tasks 1 = some (.timer 0) ∧
+    ((cancelRun 1).timers[0]?).map (fun m => (m.cancelled, m.final, m.fired)) = some (true, false, 0) ∧
+    (cancelRun 7).now = 8040 ∧ (cancelRun 7).trace.filterMap (fireIdx 1) = [] := by decide
 
-/-! ## defects of the current code, on concrete witnesses (the model mirrors the code as it stands) -/
+/-- `finished_never_runs`: after one iteration of the isolation scenario task 0 is dead (and task 1 still live) -/
+example : ((reach isoCfg 8000 [0, 1] [] [] [] [] [] 1).tasks.map (·.st)) = [.dead, .live] := by decide
+
+/-! ## the two defects found by this check (both repaired upstream: D25, D60/D61), on concrete witnesses -/
 
 /-- what the property demands of a sub-task that ends without an exception: the caller receives a *value* -/
 def AgainDeliversResult (cfg : Cfg) (tasks : List Nat) (n : Nat) : Prop :=
-  ∀ (t i tm : Nat) (e : Exc) (w : Option (Nat × Bool)), Ev.step t i tm (.exc e) w ∉ (reach cfg 8000 tasks [] [] [] n).trace
+  ∀ (t i tm : Nat) (e : Exc) (raw : Val) (w : Option (Nat × Bool)),
+    Ev.step t i tm (.exc e) raw w ∉ (reach cfg 8000 tasks [] [] [] [] [] n).trace
 
-/-- **D60** (`recoco.py:673-676`): a sub-task whose generator returns before its first `yield` raises `StopIteration` inside
-`run_again`'s `try: nxt = g.send(None)`, which `except Exception` turns into an *exception for the caller* — although the
-sub-task did not fail.  (With one yield before the return the same sub-task correctly delivers `None`.) -/
+/-- **D60** (`recoco.py`, `run_again`): before the repair a sub-task whose generator returns before its first `yield` raises
+`StopIteration` inside `try: nxt = g.send(None)`, which `except Exception` turns into an *exception for the caller* — although
+the sub-task did not fail.  (With one yield before the return the same sub-task correctly delivers `None`.) -/
 def emptySubCfg : Cfg := { progs := [[.again 1 true, .num 0], []], env := { rAt := [], wAt := [], xAt := [] } }
 theorem again_empty_defect : ¬ AgainDeliversResult emptySubCfg [0] 3 := by
   intro h
-  exact h 0 1 8000 .stopIteration none (by decide)
-/-- with the proposed repair (`except StopIteration: pass` before `except Exception`) the caller receives `None` and goes on -/
-example : (reach { emptySubCfg with fixEmptySub := true } 8000 [0] [] [] [] 4).trace =
-    [.step 0 0 8000 (.val .none) none, .step 1 0 8000 (.val .none) none, .step 0 1 8000 (.val .none) none,
-     .step 0 2 8000 (.val .none) none] := by decide
+  exact h 0 1 8000 .stopIteration .none none (by decide)
+/-- with the repair (`except StopIteration: pass` before `except Exception`) the caller receives `None` and goes on -/
+example : (reach { emptySubCfg with fixEmptySub := true } 8000 [0] [] [] [] [] [] 4).trace =
+    [.step 0 0 8000 (.val .none) .none none, .step 1 0 8000 (.val .none) .none none, .step 0 1 8000 (.val .none) .none none,
+     .step 0 2 8000 (.val .none) .none none] := by decide
 
 /-- what the property demands of `Send` on a socket that accepts nothing at first: the task is not killed -/
 def SendSurvives (cfg : Cfg) (ss : List (Option Nat)) (n : Nat) : Prop :=
-  ∀ tk ∈ (reach cfg 8000 [0] [] ss [] n).tasks, tk.st ≠ .dead
+  ∀ tk ∈ (reach cfg 8000 [0] [] ss [] [] [] n).tasks, tk.st ≠ .dead
 
-/-- **D25** (`recoco.py:643-647`): when `sock.send` writes 0 bytes, `Send._sendReturnFunc` refers to the undefined name
-`scheduler`; the `NameError` escapes `execute()` and the sending task is descheduled instead of retrying. -/
-def sendCfg : Cfg := { progs := [[.send 0 10 none 4, .num 0]], env := { rAt := [], wAt := [some 8000], xAt := [] } }
+/-- **D25** (`recoco.py`, `Send._sendReturnFunc`): before the repair, when `sock.send` writes 0 bytes the return function refers
+to the undefined name `scheduler`; the `NameError` escapes `execute()` and the sending task is descheduled instead of retrying. -/
 theorem send_zero_defect : ¬ SendSurvives sendCfg [some 0] 4 := by
   unfold SendSurvives; decide
-/-- with the proposed repair (`self._scheduler` instead of the undefined `scheduler`) the task retries and completes -/
-example : SendSurvives { sendCfg with fixSend := true } [some 0] 12 ∧
-    Ev.step 0 1 8000 (.val (.num 10)) none ∈ (reach { sendCfg with fixSend := true } 8000 [0] [] [some 0] [] 12).trace := by
+/-- with the repair (`self._scheduler` instead of the undefined `scheduler`) the task retries and completes -/
+example : SendSurvives { sendCfg with fixSend := true } [some 0] 10 := by
   unfold SendSurvives; decide
+example : Ev.step 0 1 8000 (.val (.num 10)) (.sel [] [0] []) none ∈
+    (reach { sendCfg with fixSend := true } 8000 [0] [] [some 0] [] [] [] 10).trace := by decide
 /-- the same program with a socket that accepts data completes and reports the 10 bytes -/
-example : Ev.step 0 1 8000 (.val (.num 10)) none ∈ (reach sendCfg 8000 [0] [] [some 3] [] 8).trace := by decide
+example : Ev.step 0 1 8000 (.val (.num 10)) (.sel [] [0] []) none ∈ (reach sendCfg 8000 [0] [] [some 3] [] [] [] 8).trace := by decide
 
 end Pox.C06
